@@ -14,8 +14,8 @@ def run(ctx):
     if not can_run:
         common.broken_without_input(ctx, "build", ctx.notes[-1] if ctx.notes else "")
         return
-    k = ctx.scale(5)
-    stores = generic.stores_for(ctx, {"conforming": 150 * k, "rendered-conforming": 150 * k, "injected": 40, "random": 30})
+    # (stores_for applies the tier's scale itself)
+    stores = generic.stores_for(ctx, {"conforming": 150, "rendered-conforming": 150, "injected": 40, "random": 30})
     sb = [(f, b) for f, b, _ in stores]
     dis, parsed = pipe.diag_compare(ctx, sb)
     graphs = lib.run_impl(ctx, [lib.store_cmd("cfg live -", f, b) for f, b in sb], tag="graphs")
@@ -37,6 +37,8 @@ def run(ctx):
         if not confirmed:
             not_confirmed += 1
             continue
+        if sa == "timeout":
+            continue          # termination is C06's property (and its watchdog's business)
         if sa != "ok":
             failing.append(dict(files=f, base=b, kind=tag, why="linting a conforming program ends with %s" % sa))
         elif ia:
